@@ -20,7 +20,7 @@ import ast
 from engine.cfg import expand_aliases, call_name, cfg_of
 from engine.errors import AnalysisError
 from engine.repo import walk_no_nested
-from engine.util import calls_in, depends_on, local_assignments, registrations, unparse
+from engine.util import calls_in, depends_on, local_assignments, registrations, unparse, xsrc
 
 from .c01 import message_actions
 
@@ -252,7 +252,7 @@ def run(ctx):  # noqa: C901, PLR0912, PLR0915
     ctx.ob('C20.R4', 'supported languages', ok, 'get_supported_languages is the set of Lang over all stored texts', fi=sl,
            witness=sorted(src_sl))
     fl2 = repo.func(f'{LS}._flat_list')
-    ctx.ob('C20.R4', '_flat_list covers the whole store', 'list(self._localized_texts.keys())' in unparse(fl2.node),
+    ctx.ob('C20.R4', '_flat_list covers the whole store', 'list(self._localized_texts.keys())' in xsrc(fl2),
            '_flat_list without references iterates every stored reference', fi=fl2)
     hl = repo.func('sdc11073.provider.porttypes.localizationservice.LocalizationService._on_get_localized_text')
     c = calls_in(hl.node, 'filter_localized_texts')
